@@ -4,7 +4,7 @@ sys.path.insert(0, os.path.dirname(os.path.abspath(__file__)))
 import props, build
 
 TEXT = {
-    "C01": "Coq theorems on the stream-layer and block-layer model: source order and disjointness of root ranges (C01_ordered), ends bounded by the line read (parseBlocks_bounds), NUL padding bookkeeping (unpadded_pad, fill_pad, lineCount_pad), streaming = in-memory (C08_stream_eq); partial: gap-bytes-blank and the memory clauses are decided by correspondence of root-block headers through both entry points plus the tiling oracle",
+    "C01": "full proof of the tiling statement on the model for every input (C01_tiling: ordered, disjoint root ranges inside the input, gaps and rest blank, Source = range with NUL replaced, StartLine by line endings, lengths) and for the streaming entry point (parseStream_eq_small); the memory clauses (aliasing, buffer untouched) are observed on the implementation by the oracle; tie: root-block headers through both entry points",
     "C02": "partial proof: block spans valid, nested, ordered for every input (parseFull_block_spans); inline spans valid, nested, ordered for every leaf meeting the executable entry conditions (parseInlines_spans, rewrite_roots_inline_spans), which the run evaluates on the implementation's pre-inline trees; that the block layer always meets them, and character boundaries, decided by span-structure correspondence (model vs Parse) plus the span oracle",
     "C03": "partial proof: no Unparsed node remains and entry bounds (every input); coverage decided by leaf-span correspondence plus the coverage oracle",
     "C04": "partial proof: the block layer is total for every input (parseBlocks_total: no panic site, no fuel exhaustion), Walk and readline terminate with stated fuel, renderer/formatter models are total; remaining fuel sufficiency observed on the model (no fuel code on any case) and the implementation run under recover + watchdog in all 30 configurations",
@@ -20,7 +20,7 @@ TEXT = {
     "C14": "partial proof: padding clause for any block machine (nb_shift, skip_blank_lines); recognizers insensitive to line-ending style through their declarative definitions; CRLF/CR and final-newline clauses decided by correspondence on the variants plus the oracle",
     "C15": "full proof on the model: every recognizer equals (or is sound and complete for) its declarative definition on every line, classifiers over all 256 bytes, e-mail grammar, URI alphabet / well-formed escapes / idempotence; classifier bodies and constants are regenerated from /repo's source on every run (TieClassify.v, TieBlocks.v, TieRender.v); recognizers tied by exhaustive correspondence through the verif hook",
     "C16": "re-parse oracle on the implementation (every root block re-parsed and compared node by node) plus model/implementation tree correspondence; supporting invariants machine-checked; no theorem states the re-parse property yet",
-    "C17": "proof: first clause for whole documents on the renderer model (C17_only_lt_escaped); second clause for filterRaw against a WHATWG data-state tokenizer fragment for prefix-closed predicates (no_rejected_start, start_tag_origin); tie: model renderer+filter on the implementation's tree, filterRaw through the hook; oracle uses x/net/html's tokenizer",
+    "C17": "full proof on the model: first clause for whole documents (C17_only_lt_escaped); second clause for every input and every prefix-closed predicate against a WHATWG data-state tokenizer fragment (C17_no_rejected_start_renderDoc, no side condition); tie: model renderer+filter on the implementation's tree, filterRaw through the hook; oracle uses x/net/html's tokenizer",
     "C18": "full proof: the explicit-stack Walk equals the recursive traversal for every tree and every callback pair over any user state (run_refines_spec), cursor invariant at every callback (walk_cursors_ok), visit-once (visit_once); tie: event traces of the extracted model vs walk.go on the implementation's trees under random policies",
     "C19": "generic schedule-independence / race-freedom theorem (Interleave) whose premise is instantiated by an effect summary regenerated from /repo's typed AST on every run (no global writes, no stores through shared tree/renderer types on the read-only side), plus a -race build running the concurrent workload; the classification's soundness and the Go memory model are trusted",
     "C20": "full proof of clause 1 on the formatWriter model (sticky first error, no write after it, healthy writer gives no error); clause 2 (round trip on the construct set fixed in DESIGN.md) decided by the oracle on generated canonical documents; tie: formatter model on the implementation's tree = implementation's bytes",
